@@ -536,6 +536,11 @@ def cmdDuden (args : List String) : String :=
   | ["gross", t] => showNats ((parseNats t).map grossAscii)
   | ["klein", t] => showNats ((parseNats t).map kleinAscii)
   | ["hamming", a, b] => toString (hamming (parseNats a) (parseNats b))
+  | ["loescheT", t, i] => (match loescheT (parseNats t) i.toNat! with | some r => showNats r | none => "domain")
+  | ["loescheBereichT", t, a, b] => (match loescheBereichT (parseNats t) a.toNat! b.toNat! with | some r => showNats r | none => "domain")
+  | ["einfuegenT", t, i, e] => (match einfuegenT (parseNats t) i.toNat! (parseNats e) with | some r => showNats r | none => "domain")
+  | ["finde", t, u] => showInts ((finde (parseNats t) (parseNats u)).map fun (n : Nat) => (n : Int))
+  | ["spalteText", t, u] => "/".intercalate ((spalteText (parseNats t) (parseNats u)).map showNats) |> fun r => if r == "" then "leer" else r
   | ["max2", a, b] => toString (max2 (parseInts a).head! (parseInts b).head!)
   | ["min2", a, b] => toString (min2 (parseInts a).head! (parseInts b).head!)
   | ["max3", a, b, c] => toString (max3 (parseInts a).head! (parseInts b).head! (parseInts c).head!)
